@@ -8,7 +8,7 @@ from vlib import *
 
 NAME = "lower"
 PROPS = ["C15", "C16", "C17", "C18", "C19", "C20", "C21", "C22"]
-SERVES = PROPS + ["C04", "C05"]
+SERVES = PROPS + ["C04", "C05", "C26"]
 
 MODE_PROP = {"func_entry": "C17", "func_exit": "C17", "block_entry": "C18", "block_exit": "C19",
              "semantic_after": "C20", "before": "C16", "after": "C16"}
@@ -17,6 +17,14 @@ ALT = {"block_alt", "empty_block_alt"}
 
 
 def props_of(r):
+    """plans that inject through a ComponentIterator are judged against the Ideal like all others (C15-C22) and, for
+    C26, their encoded module is compared with the one the same plan gives through ModuleIterator"""
+    if r["c"] == "component_differs_from_module":
+        return {"C26"}
+    return _props_of(r)
+
+
+def _props_of(r):
     c = r["c"]
     modes = set(r.get("modes", []))
     out = set()
@@ -113,7 +121,10 @@ def campaign(tier, seed):
         relevant = {p: 0 for p in SERVES}
         with open(cases) as f:
             for l in f:
-                ms = {e["mode"] for e in json.loads(l)["plan"]}
+                pl = json.loads(l)["plan"]
+                ms = {e["mode"] for e in pl}
+                if any(str(e.get("api", "")).startswith("comp") for e in pl):
+                    relevant["C26"] += 1
                 for m in ms:
                     if m in MODE_PROP:
                         relevant[MODE_PROP[m]] += 1
